@@ -243,6 +243,18 @@ def generate(rng, tier):
         regs = s.regs_x86(0x11050, base, 0) if arch == "x86" else s.regs_a64(M64, 0x11060, base, 0)
         full = s.add("trace U C 0x11050 %s S %d" % (regs, depth + 6), tag="%s:nullra-generic:full:%d" % (arch, depth))
         s.meta[full] = {"role": "full", "marker": "null return address on the generic path", "arch": arch}
+        # the same cache walks the same code again, over a stack whose null marker lies two frames deeper: a root marker
+        # seen once at a call site says nothing about the next walk (seeded change C11-11 cached the end of the stack)
+        pairs2 = dict(pairs)
+        sp = base
+        for d in range(depth + 3):
+            cfa = sp + frame
+            pairs2[cfa + slot] = (0x11100 + 0x10 * d) if d < depth + 2 else 0
+            sp = cfa
+        s.mem("S2", sorted(pairs2.items()))
+        again = s.add("trace U C 0x11050 %s S2 %d" % (regs, depth + 8), tag="%s:nullra-generic:again:%d" % (arch, depth))
+        s.meta[again] = {"role": "full", "marker": "null return address on the generic path (second walk, same cache)", "arch": arch,
+                         "last_ra": 0x11100 + 0x10 * (depth + 1)}
         out.append(("genericnull-%s-%d" % (arch, w), s))
     # "return address undefined" ends the stack whatever the row says about the CFA and the frame pointer
     for w in range(2 if tier == "quick" else 12):
